@@ -230,3 +230,15 @@ Theorem C01_sat_on_return_history fuel s o s' :
     ZERO_UPPERBOUND <= sl /\ (act_of s' k = true -> sl == 0) /\ (ceq (con_of s' k) = true -> sl == 0).
 Proof. exact (sat_on_return_history fuel s o s'). Qed.
 Print Assumptions C01_sat_on_return_history.
+
+(* the boolean invariants evaluated by the extracted model on every visited state (evidence key model_invariants) are
+   the proved ones: a state passing the evaluation satisfies trichotomy, act_inv and the block-statistics invariant *)
+From Adapt Require Import Vpsc.VpscInvBSpec.
+Theorem C01_trichotomyb_spec s :
+  trichotomyb s = true <-> (trich s /\ length (cact s) = length (scons s)).
+Proof. exact (trichotomyb_spec s). Qed.
+Print Assumptions C01_trichotomyb_spec.
+
+Theorem C01_all_invb_sound s : all_invb s = true -> trich s /\ act_inv s /\ all_ok s.
+Proof. exact (all_invb_sound s). Qed.
+Print Assumptions C01_all_invb_sound.
